@@ -302,7 +302,17 @@ def repro_harness(ctx, stream, ops, np):
         tail = ''
         if ref[1] != 0:
             tail = ' err=' + re.sub(r'\s+', '_', results[0][4][-200:])
-        lines.append('rc=%d nrep=%d files=%s %s%s' % (ref[1], len(results), files, verdict, tail))
+        lines.append('%s rc=%d nrep=%d files=%s %s%s' % (d['cmd'], ref[1], len(results), files, verdict, tail))
+        if verdict != 'same=1' or ref[1] != 0:
+            # persistent note: the shrinker re-runs cases, an intermittent failure must not get lost
+            try:
+                os.makedirs(os.path.join(ctx.replay_dir, 'C18_files'), exist_ok=True)
+                with open(os.path.join(ctx.replay_dir, 'C18_files', 'failures.log'), 'a') as f:
+                    f.write('seed=%s tier=%s %s\n   -> %s\n' % (ctx.seed, ctx.tier, op, lines[-1][:1500]))
+                    for rr in results:
+                        f.write('      %s rc=%d files=%s tail=%s\n' % (rr[0], rr[1], sorted(rr[2].items()), re.sub(r'\s+', ' ', rr[4][-400:])))
+            except Exception:
+                pass
     return 0, lines, ''
 
 
@@ -318,10 +328,10 @@ def oracle_repro(ops, impl):
             continue
         if o.get('rc') != '0':
             bad.append((i, 'C18 %s exited with status %s in every repetition on a valid input: %s' %
-                        (op.split()[0], o.get('rc'), line[-260:])))
+                        (cli.kv(op).get('cmd'), o.get('rc'), line[-260:])))
             continue
         if o.get('files', '-') == '-':
-            bad.append((i, 'C18 %s left no output file to compare' % op.split()[0]))
+            bad.append((i, 'C18 %s left no output file to compare' % cli.kv(op).get('cmd')))
     return bad
 
 
@@ -369,7 +379,7 @@ def gen_repro(rng, tier):
                                          'aniso:%.3f,%.3f,%.3f' % (rng.uniform(0.25, 0.5), rng.uniform(0.3, 0.5), rng.uniform(0.3, 0.6)),
                                          'linh:%.3f,%.3f,%d' % (rng.uniform(0.2, 0.3), rng.uniform(0.4, 0.6), rng.randint(0, 2))])
                     passes = rng.choice([1, 2, 3])
-                ops.append('adapt dim=3 n=%d,%d,%d jitter=%.2f patches=%s mseed=%d metric=%s passes=%d%s' % (
+                ops.append('case cmd=adapt dim=3 n=%d,%d,%d jitter=%.2f patches=%s mseed=%d metric=%s passes=%d%s' % (
                     n[0], n[1], n[2], rng.choice([0, 0.2]), rng.choice(['sides', 'split', 'one']), rng.randint(1, 10 ** 6),
                     metric, passes, tail(np)))
             else:
@@ -382,7 +392,7 @@ def gen_repro(rng, tier):
                     metric = rng.choice(['uniform:%.3f' % rng.uniform(0.1, 0.3),
                                          'aniso:%.3f,%.3f,1' % (rng.uniform(0.06, 0.3), rng.uniform(0.1, 0.4))])
                     passes = rng.choice([1, 2, 4])
-                ops.append('adapt dim=2 n=%d,%d jitter=%.2f patches=%s mseed=%d metric=%s passes=%d%s' % (
+                ops.append('case cmd=adapt dim=2 n=%d,%d jitter=%.2f patches=%s mseed=%d metric=%s passes=%d%s' % (
                     n[0], n[1], rng.choice([0, 0.3]), rng.choice(['sides', 'one']), rng.randint(1, 10 ** 6), metric,
                     passes, tail(np)))
         for _ in range(2):
@@ -392,7 +402,7 @@ def gen_repro(rng, tier):
             field = rng.choice(['poly:%.2f,%.2f,%.2f,%.2f,%.2f' % tuple(rng.uniform(-3, 3) for _ in range(5)),
                                 'tanh:%.2f,%.2f,%.2f' % (rng.uniform(3, 20), rng.uniform(-1, 1), rng.uniform(0.2, 0.8)),
                                 'sin:%.2f,%.2f,%.2f' % (rng.uniform(1, 8), rng.uniform(1, 8), rng.uniform(0, 4))])
-            op = 'multiscale dim=%d n=%s jitter=%.2f mseed=%d field=%s complexity=%s' % (
+            op = 'case cmd=multiscale dim=%d n=%s jitter=%.2f mseed=%d field=%s complexity=%s' % (
                 dim, ','.join(map(str, n)), rng.choice([0, 0.3]), rng.randint(1, 10 ** 6), field,
                 rng.choice(['50', '500', '2000']))
             if rng.random() < 0.7:
@@ -407,7 +417,7 @@ def gen_repro(rng, tier):
             rn = [rng.randint(2, 5) for _ in range(dim)]
             # one boundary id: no corner ("geometry") node seeds the donor walk, every receptor node goes through the
             # search-tree fallback; four/six ids: located by walking
-            ops.append('interp dim=%d n=%s jitter=%.2f patches=%s mseed=%d ldim=%d field=gen:%.2f,%.2f,%.2f rn=%s rseed=%d rjitter=%.2f%s' % (
+            ops.append('case cmd=interp dim=%d n=%s jitter=%.2f patches=%s mseed=%d ldim=%d field=gen:%.2f,%.2f,%.2f rn=%s rseed=%d rjitter=%.2f%s' % (
                 dim, ','.join(map(str, n)), rng.choice([0, 0.3]), rng.choice(['one', 'one', 'sides']), rng.randint(1, 10 ** 6), rng.randint(1, 6),
                 rng.uniform(0.5, 6), rng.uniform(0.5, 6), rng.uniform(0.5, 6), ','.join(map(str, rn)),
                 rng.randint(1, 10 ** 6), rng.choice([0, 0.3]), tail(np, full=False)))
@@ -416,13 +426,13 @@ def gen_repro(rng, tier):
             if rng.random() < 0.6:
                 n = [rng.randint(2, 5) for _ in range(3)]
                 ids = sorted(rng.sample(range(1, 7), rng.randint(1, 3)))
-                ops.append('distance dim=3 n=%d,%d,%d jitter=%.2f mseed=%d len=%s walls=%s%s' % (
+                ops.append('case cmd=distance dim=3 n=%d,%d,%d jitter=%.2f mseed=%d len=%s walls=%s%s' % (
                     n[0], n[1], n[2], rng.choice([0, 0.3]), rng.randint(1, 10 ** 6), rng.choice(['1,1,1', '10,1,0.1']),
                     ','.join(map(str, ids)), tail(np, full=False)))
             else:
                 n = [rng.randint(3, 7) for _ in range(2)]
                 ids = sorted(rng.sample(range(1, 5), rng.randint(1, 2)))
-                ops.append('distance dim=2 n=%d,%d jitter=%.2f mseed=%d len=%s walls=%s%s' % (
+                ops.append('case cmd=distance dim=2 n=%d,%d jitter=%.2f mseed=%d len=%s walls=%s%s' % (
                     n[0], n[1], rng.choice([0, 0.3]), rng.randint(1, 10 ** 6), rng.choice(['1,1', '10,1']),
                     ','.join(map(str, ids)), tail(np, full=False)))
         for _ in range(2):
@@ -430,15 +440,15 @@ def gen_repro(rng, tier):
             mesh = rng.choice(['slab', 'box', 'square'])
             n = [rng.randint(1, 3) for _ in range(3)]
             fmts = ['meshb'] if mesh == 'square' else cli.FORMATS
-            ops.append('translate mesh=%s n=%d,%d,%d jitter=%.2f mseed=%d in=%s out=%s mv=%d%s' % (
+            ops.append('case cmd=translate mesh=%s n=%d,%d,%d jitter=%.2f mseed=%d in=%s out=%s mv=%d%s' % (
                 mesh, n[0], n[1], n[2], rng.choice([0, 0.3]), rng.randint(1, 10 ** 6), rng.choice(fmts), rng.choice(fmts),
                 rng.choice([2, 3, 4]), tail(np, full=False)))
     return ops
 
 
 CLI_REPRO = Stream('cli_repro', repro_harness, None, gen_repro, oracle=oracle_repro, kind='oracle',
-                   nontrivial=lambda op, out: out.startswith('rc=0') and 'same=1' in out, timeout=600,
-                   session='\x00none', batches={'quick': 1, 'thorough': 2})
+                   nontrivial=lambda op, out: ' rc=0 ' in out and 'same=1' in out, timeout=600,
+                   session='case', batches={'quick': 1, 'thorough': 2})
 
 
 # ------------------------------------------------------------------ memcheck
@@ -480,7 +490,7 @@ def memcheck_harness(ctx, stream, ops, np):
             frames = re.findall(r'(?:at|by) 0x[0-9A-F]+: (\S+) \(([^)]*)\)', blk)[:4]
             first = ' first=%s@%s' % ((m.group(1) if m else 'memcheck-error').replace(' ', '_'),
                                       ';'.join('%s:%s' % f for f in frames).replace(' ', '_'))
-        lines.append('rc=%d errors=%d uninit=%d%s' % (rc, nerr, 1 if m else 0, first))
+        lines.append('%s rc=%d errors=%d uninit=%d%s' % (d['cmd'], rc, nerr, 1 if m else 0, first))
     return 0, lines, ''
 
 
@@ -491,27 +501,27 @@ def oracle_memcheck(ops, impl):
         if line.startswith('bad-op'):
             bad.append((i, 'scenario could not be prepared: ' + line[:200]))
         elif o.get('uninit') != '0':
-            bad.append((i, 'C18 memcheck: a result of `%s` depends on uninitialised memory: %s' % (op.split()[0], line[:500])))
+            bad.append((i, 'C18 memcheck: a result of `%s` depends on uninitialised memory: %s' % (cli.kv(op).get('cmd'), line[:500])))
         elif o.get('rc') == '97':
-            bad.append((i, 'memcheck reported an invalid access in `%s`: %s' % (op.split()[0], line[:500])))
+            bad.append((i, 'memcheck reported an invalid access in `%s`: %s' % (cli.kv(op).get('cmd'), line[:500])))
         elif o.get('rc') != '0':
-            bad.append((i, '%s under valgrind exited with status %s' % (op.split()[0], o.get('rc'))))
+            bad.append((i, '%s under valgrind exited with status %s' % (cli.kv(op).get('cmd'), o.get('rc'))))
     return bad
 
 
 def gen_memcheck(rng, tier):
     ms = lambda: rng.randint(1, 10 ** 6)
     pool = [
-        lambda: 'adapt dim=3 n=1,1,%d jitter=0 patches=sides mseed=%d metric=uniform:%.3f passes=1' % (rng.randint(1, 2), ms(), rng.uniform(0.45, 0.7)),
-        lambda: 'adapt dim=2 n=2,%d jitter=0.30 patches=sides mseed=%d metric=uniform:%.3f passes=2' % (rng.randint(2, 3), ms(), rng.uniform(0.2, 0.4)),
-        lambda: 'multiscale dim=3 n=2,2,2 jitter=0.30 mseed=%d field=poly:1.00,-2.00,0.50,1.50,0.30 complexity=200 p=2 grad=1.5' % ms(),
-        lambda: 'multiscale dim=2 n=3,3 jitter=0 mseed=%d field=sin:3.00,2.00,0.00 complexity=100' % ms(),
-        lambda: 'interp dim=3 n=2,2,2 jitter=0.30 patches=%s mseed=%d ldim=2 field=gen:1.00,2.00,3.00 rn=2,3,2 rseed=%d rjitter=0.30' % (rng.choice(['one', 'sides']), ms(), ms()),
-        lambda: 'interp dim=2 n=3,3 jitter=0 patches=one mseed=%d ldim=1 field=gen:2.00,1.00,0.50 rn=4,3 rseed=%d rjitter=0.30' % (ms(), ms()),
-        lambda: 'distance dim=3 n=2,2,2 jitter=0.30 mseed=%d len=1,1,1 walls=1,3' % ms(),
-        lambda: 'distance dim=2 n=4,3 jitter=0 mseed=%d len=1,1 walls=2' % ms(),
-        lambda: 'translate mesh=box n=1,2,1 jitter=0.30 mseed=%d in=meshb out=lb8.ugrid mv=2' % ms(),
-        lambda: 'translate mesh=slab n=2,1,1 jitter=0 mseed=%d in=b8.ugrid out=meshb mv=3' % ms(),
+        lambda: 'case cmd=adapt dim=3 n=1,1,%d jitter=0 patches=sides mseed=%d metric=uniform:%.3f passes=1' % (rng.randint(1, 2), ms(), rng.uniform(0.45, 0.7)),
+        lambda: 'case cmd=adapt dim=2 n=2,%d jitter=0.30 patches=sides mseed=%d metric=uniform:%.3f passes=2' % (rng.randint(2, 3), ms(), rng.uniform(0.2, 0.4)),
+        lambda: 'case cmd=multiscale dim=3 n=2,2,2 jitter=0.30 mseed=%d field=poly:1.00,-2.00,0.50,1.50,0.30 complexity=200 p=2 grad=1.5' % ms(),
+        lambda: 'case cmd=multiscale dim=2 n=3,3 jitter=0 mseed=%d field=sin:3.00,2.00,0.00 complexity=100' % ms(),
+        lambda: 'case cmd=interp dim=3 n=2,2,2 jitter=0.30 patches=%s mseed=%d ldim=2 field=gen:1.00,2.00,3.00 rn=2,3,2 rseed=%d rjitter=0.30' % (rng.choice(['one', 'sides']), ms(), ms()),
+        lambda: 'case cmd=interp dim=2 n=3,3 jitter=0 patches=one mseed=%d ldim=1 field=gen:2.00,1.00,0.50 rn=4,3 rseed=%d rjitter=0.30' % (ms(), ms()),
+        lambda: 'case cmd=distance dim=3 n=2,2,2 jitter=0.30 mseed=%d len=1,1,1 walls=1,3' % ms(),
+        lambda: 'case cmd=distance dim=2 n=4,3 jitter=0 mseed=%d len=1,1 walls=2' % ms(),
+        lambda: 'case cmd=translate mesh=box n=1,2,1 jitter=0.30 mseed=%d in=meshb out=lb8.ugrid mv=2' % ms(),
+        lambda: 'case cmd=translate mesh=slab n=2,1,1 jitter=0 mseed=%d in=b8.ugrid out=meshb mv=3' % ms(),
     ]
     if tier == 'quick':   # one tiny 3-D and one tiny 2-D case per command (valgrind: ~1 s each)
         return [f() for f in pool]
@@ -519,7 +529,7 @@ def gen_memcheck(rng, tier):
 
 
 CLI_MEMCHECK = Stream('cli_memcheck', memcheck_harness, None, gen_memcheck, oracle=oracle_memcheck, kind='oracle',
-                      nontrivial=lambda op, out: out.startswith('rc=0'), timeout=900, session='\x00none',
+                      nontrivial=lambda op, out: ' rc=0 ' in out, timeout=900, session='case',
                       batches={'quick': 1, 'thorough': 1})
 
 
